@@ -2,13 +2,13 @@
   C15 (continued) — the token hints at the level of the reported occurrences, and the look-ahead of the
   lazy iterator.
 
-  * `C15_nan_outside`: a (non-skipped) token hinted "not a number part" is inside no occurrence.
+  * `C15_nan_outside`: a token hinted "not a number part" is inside no occurrence (such a token is never
+    skipped, even when it is white space or a lone `-`: `Hints.isSkipped_of_nan`).
   * `C15_sep_splits`: a (non-skipped) token hinted "separated from its predecessor" is never in the same
     occurrence as anything before it.
   * `C15_sep_as_comma`: the hint gives the occurrences that a comma token inserted in front of the token
-    gives (positions from the token on shifted by one) — for tokens whose word is not answered
-    `Incomplete` by the pristine parser, or that do not break a sequence (the hypothesis is needed:
-    `C15_sep_as_comma_needs_quiet` is a Dutch counter-example).
+    gives (positions from the token on shifted by one), for every token that is not skipped and not hinted
+    "not a number part" (`C15_sep_as_comma_incomplete`: the Dutch instance with a word answered `Incomplete`).
   * `C15_lookahead_bound`: when `next` returns the k-th occurrence, at most `occs[k+2].start + 1` tokens
     have been read (all of them if there is no `occs[k+2]`); `C15_on_demand`, `C15_on_demand_minimal`:
     a queued occurrence is returned without reading anything, and the reading stops at the first token
@@ -50,13 +50,17 @@ theorem C15_commaChar_simple : CommaChar simpleCC := ⟨by decide, by decide⟩
 
 /-! ### "not a number part" -/
 
+/-- the hint is looked at before the scanner decides to skip a token -/
+theorem C15_nan_never_skipped (cfg : ScanCfg) (tok : Tok) (hnan : tok.nan = true) :
+    Scanner.isSkipped cfg tok = false := isSkipped_of_nan cfg tok hnan
+
 /-- **C15 (not a number part)**: for every configuration whose language satisfies `LangOk`, every token
-stream and threshold: a token that declares itself "not a number part" and is not one of the tokens the
-scanner skips before looking at hints (a lone `-`, white space) is inside no occurrence.
-(The restriction is needed: `C15_nan_skipped_inside`.) -/
+stream and threshold: a token that declares itself "not a number part" is inside no occurrence — whatever
+its text: a white-space token or a lone `-` carrying the hint is not skipped (`C15_nan_never_skipped`,
+instance `C15_nan_whitespace_outside`). -/
 theorem C15_nan_outside (cfg : ScanCfg) (hl : LangOk cfg.lang) (toks : List Tok) (occs : List Occ)
-    (h : findNumbers cfg toks = .ok occs) (i : Nat) (hi : i < toks.length) (hnan : toks[i].nan = true)
-    (hs : Scanner.isSkipped cfg toks[i] = false) : ∀ o ∈ occs, ¬ (o.start ≤ i ∧ i < o.stop) := by
+    (h : findNumbers cfg toks = .ok occs) (i : Nat) (hi : i < toks.length) (hnan : toks[i].nan = true) :
+    ∀ o ∈ occs, ¬ (o.start ≤ i ∧ i < o.stop) := by
   have hlen := length_take_lt toks i hi
   have hsplit := split_at toks i hi
   rw [hsplit] at h
@@ -65,7 +69,7 @@ theorem C15_nan_outside (cfg : ScanCfg) (hl : LangOk cfg.lang) (toks : List Tok)
     (by
       intro s s' _ hsc hsi he
       rw [hlen] at hsc he
-      exact push_nan_cut cfg s s' i toks[i] hsc hsi hnan hs he) h
+      exact push_nan_cut cfg s s' i toks[i] hsc hsi hnan he) h
   intro o ho hc
   exact key o ho ⟨by omega, hc.2⟩
 
@@ -113,17 +117,17 @@ longer consulted) yield the same occurrences, the positions from `t` on being sh
 
 Assumptions: `LangOk`, `ErrFresh`, the forced stop is refused in every state (all seven interpreters:
 `C15_builtin`); the comma is neither white space nor a letter for the character classes; `t` is not a
-skipped token and not hinted "not a number part" (such tokens never consult the hint); and — `hq` — the
-word of `t` is not answered `Incomplete` by the pristine parser, or `t` does not break a sequence
-(`breaks`: a token with a letter, or a lone full stop, that is not a linking word). -/
+skipped token and not hinted "not a number part" (such tokens never consult the hint). Nothing is assumed
+of the word of `t`: when the forced stop has ended the number, `t` is tried on the pristine parser with the
+three outcomes of an ordinary push (accepted / `Incomplete`: skipped / refused: outside), which is what
+happens to `t` after a spoken comma. -/
 theorem C15_sep_as_comma (cfg : ScanCfg) (hl : LangOk cfg.lang) (hf : cfg.lang.ErrFresh)
     (hc : cfg.lang.Rejects [',']) (hcc : CommaChar cfg.cc) (A B : List Tok) (t p : Tok)
     (hp : prevSig cfg A = some p) (hsep : cfg.sep t p = true)
-    (hs : Scanner.isSkipped cfg t = false) (hnan : t.nan = false)
-    (hq : (({} : Parser).push cfg.lang t.lower).1 = some .incomplete → breaks cfg t = false) :
+    (hs : Scanner.isSkipped cfg t = false) (hnan : t.nan = false) :
     ∃ occs, findNumbers cfg (A ++ t :: B) = .ok occs ∧
       findNumbers cfg (A ++ commaTok :: t :: B) = .ok (occs.map (shiftFrom A.length)) := by
-  obtain ⟨occs, h1, h2⟩ := findNumbers_comma cfg hl hf hc hcc A B t p hp hsep hs hnan hq
+  obtain ⟨occs, h1, h2⟩ := findNumbers_comma cfg hl hf hc hcc A B t p hp hsep hs hnan
   refine ⟨occs, h1, ?_⟩
   rw [h2]
   congr 1
@@ -143,12 +147,11 @@ theorem C15_sep_as_comma (cfg : ScanCfg) (hl : LangOk cfg.lang) (hf : cfg.lang.E
 theorem C15_sep_as_comma_texts (cfg : ScanCfg) (hl : LangOk cfg.lang) (hf : cfg.lang.ErrFresh)
     (hc : cfg.lang.Rejects [',']) (hcc : CommaChar cfg.cc) (A B : List Tok) (t p : Tok)
     (hp : prevSig cfg A = some p) (hsep : cfg.sep t p = true)
-    (hs : Scanner.isSkipped cfg t = false) (hnan : t.nan = false)
-    (hq : (({} : Parser).push cfg.lang t.lower).1 = some .incomplete → breaks cfg t = false) :
+    (hs : Scanner.isSkipped cfg t = false) (hnan : t.nan = false) :
     ∃ occs occs', findNumbers cfg (A ++ t :: B) = .ok occs ∧
       findNumbers cfg (A ++ commaTok :: t :: B) = .ok occs' ∧
       occs'.map (fun o => (o.text, o.value, o.isOrdinal)) = occs.map (fun o => (o.text, o.value, o.isOrdinal)) := by
-  obtain ⟨occs, h1, h2⟩ := C15_sep_as_comma cfg hl hf hc hcc A B t p hp hsep hs hnan hq
+  obtain ⟨occs, h1, h2⟩ := C15_sep_as_comma cfg hl hf hc hcc A B t p hp hsep hs hnan
   refine ⟨occs, _, h1, h2, ?_⟩
   rw [List.map_map]
   apply List.map_congr_left
@@ -208,9 +211,9 @@ theorem C15_on_demand_minimal (cfg : ScanCfg) (it : Iter) (r : Option Occ) (it' 
 /-! ### the same for the seven interpreters, without assumptions on the language -/
 
 theorem C15_nan_outside_builtin (cfg : ScanCfg) (hb : cfg.lang ∈ allLangs) (toks : List Tok) (occs : List Occ)
-    (h : findNumbers cfg toks = .ok occs) (i : Nat) (hi : i < toks.length) (hnan : toks[i].nan = true)
-    (hs : Scanner.isSkipped cfg toks[i] = false) : ∀ o ∈ occs, ¬ (o.start ≤ i ∧ i < o.stop) :=
-  C15_nan_outside cfg (C15_builtin cfg.lang hb).1 toks occs h i hi hnan hs
+    (h : findNumbers cfg toks = .ok occs) (i : Nat) (hi : i < toks.length) (hnan : toks[i].nan = true) :
+    ∀ o ∈ occs, ¬ (o.start ≤ i ∧ i < o.stop) :=
+  C15_nan_outside cfg (C15_builtin cfg.lang hb).1 toks occs h i hi hnan
 
 theorem C15_sep_splits_builtin (cfg : ScanCfg) (hb : cfg.lang ∈ allLangs)
     (toks : List Tok) (occs : List Occ) (h : findNumbers cfg toks = .ok occs) (i : Nat)
@@ -221,12 +224,11 @@ theorem C15_sep_splits_builtin (cfg : ScanCfg) (hb : cfg.lang ∈ allLangs)
 
 theorem C15_sep_as_comma_builtin (cfg : ScanCfg) (hb : cfg.lang ∈ allLangs) (hcc : CommaChar cfg.cc)
     (A B : List Tok) (t p : Tok) (hp : prevSig cfg A = some p) (hsep : cfg.sep t p = true)
-    (hs : Scanner.isSkipped cfg t = false) (hnan : t.nan = false)
-    (hq : (({} : Parser).push cfg.lang t.lower).1 = some .incomplete → breaks cfg t = false) :
+    (hs : Scanner.isSkipped cfg t = false) (hnan : t.nan = false) :
     ∃ occs, findNumbers cfg (A ++ t :: B) = .ok occs ∧
       findNumbers cfg (A ++ commaTok :: t :: B) = .ok (occs.map (shiftFrom A.length)) :=
   C15_sep_as_comma cfg (C15_builtin cfg.lang hb).1 (C15_builtin cfg.lang hb).2.1 (C15_builtin cfg.lang hb).2.2
-    hcc A B t p hp hsep hs hnan hq
+    hcc A B t p hp hsep hs hnan
 
 theorem C15_lookahead_bound_builtin (cfg : ScanCfg) (hb : cfg.lang ∈ allLangs) (toks : List Tok) (occs : List Occ)
     (h : findNumbers cfg toks = .ok occs) (k : Nat) (o : Occ) (it' : Iter)
@@ -240,7 +242,7 @@ theorem C15_lookahead_bound_builtin (cfg : ScanCfg) (hb : cfg.lang ∈ allLangs)
 example : ∃ occs, findNumbers (exCfg En.lang 0) [wd w!"twenty", wd w!" ", wdNan w!"one", wd w!" ", wd w!"two"] = .ok occs ∧
     ∀ o ∈ occs, ¬ (o.start ≤ 2 ∧ 2 < o.stop) := by
   obtain ⟨occs, h, _⟩ := findNumbers_ok (exCfg En.lang 0) [wd w!"twenty", wd w!" ", wdNan w!"one", wd w!" ", wd w!"two"]
-  exact ⟨occs, h, C15_nan_outside _ C06.C06_langOk_en _ occs h 2 (by decide) rfl (by decide)⟩
+  exact ⟨occs, h, C15_nan_outside _ C06.C06_langOk_en _ occs h 2 (by decide) rfl⟩
 
 set_option maxRecDepth 100000 in
 /-- … the occurrences are "20" and "2" -/
@@ -248,11 +250,22 @@ example : spans (findNumbers (exCfg En.lang 0) [wd w!"twenty", wd w!" ", wdNan w
     some [(0, 1, w!"20"), (4, 5, w!"2")] := by decide +kernel
 
 set_option maxRecDepth 100000 in
-/-- the restriction to tokens that are not skipped is needed: the scanner skips white space (and a lone `-`)
-before it looks at the hints, so a white-space token hinted "not a number part" is inside "twenty one" -/
-theorem C15_nan_skipped_inside :
-    spans (findNumbers (exCfg En.lang 0) [wd w!"twenty", wdNan w!" ", wd w!"one"]) = some [(0, 3, w!"21")] := by
+/-- no restriction to tokens that are not skipped: the scanner looks at the hint before it skips white space
+(and a lone `-`), so a white-space (or hyphen) token hinted "not a number part" splits "twenty one" into
+"20" and "1" and is outside both; without the hint the hyphen is skipped and "21" is found -/
+theorem C15_nan_whitespace_outside :
+    spans (findNumbers (exCfg En.lang 0) [wd w!"twenty", wdNan w!" ", wd w!"one"]) =
+      some [(0, 1, w!"20"), (2, 3, w!"1")] ∧
+    spans (findNumbers (exCfg En.lang 0) [wd w!"twenty", wdNan w!"-", wd w!"one"]) =
+      some [(0, 1, w!"20"), (2, 3, w!"1")] ∧
+    spans (findNumbers (exCfg En.lang 0) [wd w!"twenty", wd w!"-", wd w!"one"]) = some [(0, 3, w!"21")] := by
   decide +kernel
+
+/-- … as `C15_nan_outside` says of that stream (no side condition to discharge) -/
+example : ∃ occs, findNumbers (exCfg En.lang 0) [wd w!"twenty", wdNan w!" ", wd w!"one"] = .ok occs ∧
+    ∀ o ∈ occs, ¬ (o.start ≤ 1 ∧ 1 < o.stop) := by
+  obtain ⟨occs, h, _⟩ := findNumbers_ok (exCfg En.lang 0) [wd w!"twenty", wdNan w!" ", wd w!"one"]
+  exact ⟨occs, h, C15_nan_outside _ C06.C06_langOk_en _ occs h 1 (by decide) rfl⟩
 
 /-- "twenty ⟨one: separated⟩ two": no occurrence contains position 2 together with an earlier one -/
 example : ∃ occs, findNumbers (exCfg En.lang 0) [wd w!"twenty", wd w!" ", wdSep w!"one", wd w!" ", wd w!"two"] = .ok occs ∧
@@ -275,19 +288,26 @@ example : ∃ occs, findNumbers (exCfg En.lang 10) ([wd w!"twenty", wd w!" "] ++
       .ok (occs.map (shiftFrom 2)) :=
   C15_sep_as_comma (exCfg En.lang 10) C06.C06_langOk_en C10.C10_en_errFresh C15_en_rejects_comma
     C15_commaChar_simple [wd w!"twenty", wd w!" "] [wd w!" ", wd w!"two"] (wdSep w!"one") (wd w!"twenty")
-    (by decide) rfl (by decide) rfl (by decide +kernel)
+    (by decide) rfl (by decide) rfl
 
 set_option maxRecDepth 100000 in
-/-- **the hypothesis `hq` of `C15_sep_as_comma` is needed.** Dutch "en" is answered `Incomplete` by the
+/-- **`C15_sep_as_comma` needs no hypothesis on the word of `t`.** Dutch "en" is answered `Incomplete` by the
 pristine parser and is not a linking word. In "twintig ⟨en: separated⟩ een" (threshold 10) the forced stop
-ends "20", then "en" — refused by the pristine parser at the end of a number — counts as a sequence
-breaker, so the lone "een" is held back and dropped. In "twintig , en een" the comma ends "20" without
-breaking the sequence, "en" is merely skipped as `Incomplete`, and "1" is reported. -/
-theorem C15_sep_as_comma_needs_quiet :
+ends "20", then "en" — tried on the pristine parser at the end of the number — is merely skipped as
+`Incomplete`, exactly as in "twintig , en een": both streams report "20" and "1". -/
+theorem C15_sep_as_comma_incomplete :
     spans (findNumbers (exCfg Nl.lang 10) [wd w!"twintig", wd w!" ", wdSep w!"en", wd w!" ", wd w!"een"]) =
-      some [(0, 1, w!"20")] ∧
+      some [(0, 1, w!"20"), (4, 5, w!"1")] ∧
     spans (findNumbers (exCfg Nl.lang 10) [wd w!"twintig", wd w!" ", commaTok, wdSep w!"en", wd w!" ", wd w!"een"]) =
       some [(0, 1, w!"20"), (5, 6, w!"1")] := by decide +kernel
+
+/-- … as an instance of the theorem -/
+example : ∃ occs, findNumbers (exCfg Nl.lang 10) ([wd w!"twintig", wd w!" "] ++ wdSep w!"en" :: [wd w!" ", wd w!"een"]) = .ok occs ∧
+    findNumbers (exCfg Nl.lang 10) ([wd w!"twintig", wd w!" "] ++ commaTok :: wdSep w!"en" :: [wd w!" ", wd w!"een"]) =
+      .ok (occs.map (shiftFrom 2)) :=
+  C15_sep_as_comma (exCfg Nl.lang 10) C06.C06_langOk_nl C10.C10_nl_errFresh C10.C10_nl_rejects_comma
+    C15_commaChar_simple [wd w!"twintig", wd w!" "] [wd w!" ", wd w!"een"] (wdSep w!"en") (wd w!"twintig")
+    (by decide) rfl (by decide) rfl
 
 set_option maxRecDepth 100000 in
 /-- the look-ahead bound is attained in English: on "one two three four" (threshold 10) the first call of
